@@ -28,5 +28,25 @@ func corpusDocs() []*Doc {
 	d = mk(nil, p(nil, "a"))
 	d.PreComment, d.Doctype = true, true
 	out = append(out, d)
+	// fixed 358a572: right-to-left text with the Pango engine
+	out = append(out, mk(nil, p(nil, "مرحبا")), mk(nil, p(nil, "abc שלום עולם def")))
+	// fixed 9bf9920: lang="x"
+	out = append(out, mk(nil, &Node{Tag: "p", Attrs: []Attr{{K: "lang", V: "x"}}, Kids: []*Node{{Text: "a"}}}))
+	// fixed 4f13a41: display:inline-grid
+	out = append(out, mk(nil, &Node{Tag: "span", Style: []Decl{{Name: "display", Value: "inline-grid"}}}))
+	// fixed 0871e31: preserveAspectRatio="x" / ""
+	out = append(out, mk(nil, &Node{Tag: "#raw", Text: `<svg width="10" height="10" preserveAspectRatio="x"><rect width="3" height="3"/></svg>`}))
+	out = append(out, mk(nil, &Node{Tag: "#raw", Text: `<svg width="10" height="10" preserveAspectRatio=""><rect width="3" height="3"/></svg>`}))
+	// fixed c5a853c: counter value outside the int32 range
+	out = append(out, mk(nil, &Node{Tag: "ol", Attrs: []Attr{{K: "start", V: "99999999999"}}, Kids: []*Node{{Tag: "li"}}}))
+	out = append(out, mk([]*Rule{{Prelude: "p", Decls: []Decl{{Name: "counter-reset", Value: "c 99999999999"}}}, {Prelude: "p::before", Decls: []Decl{{Name: "content", Value: "counter(c)"}}}}, p(nil, "a")))
+	// fixed eb3b74f / 6b5b831: go-text engine, underlined text and <br>
+	for _, n := range []*Node{{Tag: "u", Kids: []*Node{{Text: "a"}}}, {Tag: "br"}, {Tag: "a", Attrs: []Attr{{K: "href", V: "#x"}}, Kids: []*Node{{Text: "a"}}}} {
+		d := mk(nil, n)
+		d.Engine = "gotext"
+		out = append(out, d)
+	}
+	// fixed 5d2802b: running() inline with block children
+	out = append(out, mk(nil, &Node{Tag: "span", Style: []Decl{{Name: "position", Value: "running(h)"}}, Kids: []*Node{{Tag: "div", Kids: []*Node{{Tag: "span"}}}}}))
 	return out
 }
